@@ -883,3 +883,92 @@ func importText(text string, v uint64) (*bmnumbers.BMNumber, error) {
 	}
 	return m, err
 }
+
+// ---- widths above 64 bits ---------------------------------------------------------------------------
+// The value grid above works on uint64; hex and bin literals are not limited to 64 bits. For the widths 65..128 a
+// few bit patterns per width go through the same oracles with the bits kept as text.
+
+type wideFailure struct{ fam, failure, detail string }
+
+func widePatterns(w int) []string {
+	ones := strings.Repeat("1", w)
+	zeros := strings.Repeat("0", w)
+	alt := strings.Repeat("10", w)[:w]
+	return []string{zeros, zeros[:w-1] + "1", "1" + zeros[:w-1], "1" + zeros[:w-2] + "1", ones, ones[:w-1] + "0", alt, "1" + alt[1:]}
+}
+
+func bitsToHex(b string) string {
+	for len(b)%4 != 0 {
+		b = "0" + b
+	}
+	var sb strings.Builder
+	for i := 0; i < len(b); i += 4 {
+		v, _ := strconv.ParseUint(b[i:i+4], 2, 8)
+		sb.WriteString(strconv.FormatUint(v, 16))
+	}
+	return sb.String()
+}
+
+func wideChecks() (evaluated int, fails []wideFailure) {
+	add := func(fam, f, d string) { fails = append(fails, wideFailure{fam, f, d}) }
+	for _, w := range []int{65, 66, 71, 72, 73, 80, 96, 100, 127, 128} {
+		for _, bits := range widePatterns(w) {
+			lits := map[string][]string{"bin": {"0b<" + strconv.Itoa(w) + ">" + bits}}
+			if w%8 == 0 {
+				lits["hex"] = []string{"0x<" + strconv.Itoa(w) + ">" + bitsToHex(bits)}
+				if bits[0] == '1' || strings.TrimLeft(bitsToHex(bits), "0") != "" && len(strings.TrimLeft(bitsToHex(bits), "0"))*4 > w-8 {
+					// the unsized form states its width through its digit count (byte granularity)
+					lits["hex"] = append(lits["hex"], "0x"+bitsToHex(bits))
+				}
+			}
+			for fam, ll := range lits {
+				for _, lit := range ll {
+					evaluated++
+					n, err := bmnumbers.ImportString(lit)
+					if err != nil || n == nil {
+						add(fam, "wide-literal-rejected", fmt.Sprintf("%q: %v", lit, err))
+						continue
+					}
+					plain := strings.TrimLeft(bits, "0")
+					if plain == "" {
+						plain = "0"
+					}
+					if n.GetTypeName() != fam {
+						add(fam, "wide-type-ne-notation", fmt.Sprintf("%q -> %s", lit, n.GetTypeName()))
+					}
+					if s, err := n.ExportBinary(true); err != nil || s != "0b<"+strconv.Itoa(w)+">"+plain {
+						add(fam, "wide-ExportBinary-wrong", fmt.Sprintf("%q -> %q (%v)", lit, s, err))
+						continue
+					}
+					if s, err := n.ExportVerilogBinary(); err != nil || s != strconv.Itoa(w)+"'b"+bits {
+						add(fam, "wide-ExportVerilogBinary-wrong", fmt.Sprintf("%q -> %q (%v)", lit, s, err))
+					}
+					if s, err := n.ExportBinaryNBits(w); err != nil || s != bits {
+						add(fam, "wide-ExportBinaryNBits-wrong", fmt.Sprintf("%q n=%d -> %q (%v)", lit, w, s, err))
+					}
+					if bits[0] == '1' {
+						if s, err := n.ExportBinaryNBits(w - 1); err == nil {
+							add(fam, "wide-ExportBinaryNBits-no-error-although-value-does-not-fit", fmt.Sprintf("%q n=%d -> %q", lit, w-1, s))
+						}
+					}
+					text, err := n.ExportString(nil)
+					if err != nil {
+						add(fam, "wide-export-error", fmt.Sprintf("%q: %v", lit, err))
+						continue
+					}
+					m, err := bmnumbers.ImportString(text)
+					if err != nil || m == nil {
+						add(fam, "wide-exported-text-rejected-by-import", fmt.Sprintf("%q -> %q: %v", lit, text, err))
+						continue
+					}
+					a, _ := infoOf(n)
+					b, _ := infoOf(m)
+					if a != b {
+						add(fam, "wide-reimported-number-differs", fmt.Sprintf("%q -> %q -> %+v, original %+v", lit, text, b, a))
+					}
+				}
+			}
+		}
+	}
+	return
+}
